@@ -160,9 +160,38 @@ func zzC03Stub() {
 	zzReach("stub")
 }
 
+// zzC03Bits: the field helpers every Assembler/Disassembler is built from, for ALL bit strings of n characters:
+// get_id reads a field as the unsigned number its bits denote (n <= 62 so that it fits an int), zeros_prefix pads
+// to exactly the requested width without touching the digits, and the two are inverse on the padded text.
+func zzC03Bits(n int, pad int) {
+	s := zzNondetBits("field", n)
+	// bit i of the number is character n-1-i of the text, and nothing above bit n-1 is set
+	value := func(t string, width int) bool {
+		v := get_id(t)
+		ok := v>>uint(width) == 0 && v >= 0
+		for i := 0; i < width; i++ {
+			if ((v>>uint(i))&1 == 1) != (t[len(t)-1-i] == '1') {
+				ok = false
+			}
+		}
+		return ok
+	}
+	zzAssert("get_id-is-the-value-of-the-bits", value(s, n))
+	p := zeros_prefix(n+pad, s)
+	zzAssert("zeros_prefix-pads-to-the-width", len(p) == n+pad)
+	zzAssert("zeros_prefix-keeps-the-digits", len(p) == n+pad && p[pad:] == s)
+	zzAssert("zeros_prefix-keeps-the-value", get_id(p) == get_id(s))
+	for i := 0; i < pad; i++ {
+		zzAssert("zeros_prefix-pads-with-zeros", p[i] == '0')
+	}
+	zzReach("end")
+}
+
 func zzDispatch(name string, args []string) {
 	atoi := func(s string) int { v, _ := strconv.Atoi(s); return v }
 	switch name {
+	case "zzC03Bits":
+		zzC03Bits(atoi(args[0]), atoi(args[1]))
 	case "zzC03":
 		zzC03(atoi(args[0]), atoi(args[1]), atoi(args[2]), atoi(args[3]), atoi(args[4]), atoi(args[5]), args[6], args[7], args[8], atoi(args[9]), atoi(args[10]), atoi(args[11]))
 	case "zzC03Stub":
